@@ -272,6 +272,9 @@ func (in *Interp) intrinsic(fn *ssa.Function, args []Value, site *ssa.Call) (Val
 			}
 			return ts.FPConst(64, math.Float64bits(f)), true
 		}
+		if in.fpReal() {
+			return in.fpRealRound(t, full), true
+		}
 		mode := map[string]int{"math.Round": 1, "math.Floor": 3, "math.Ceil": 2, "math.Trunc": 4, "math.RoundToEven": 0}[full]
 		return ts.App(OFPRound, t.Sort, mode, t), true
 	case "math.Abs":
@@ -295,6 +298,67 @@ func (in *Interp) intrinsic(fn *ssa.Function, args []Value, site *ssa.Call) (Val
 		return in.symbolicNow(fn), true
 	case "time.Sleep":
 		return nil, true
+	case "(time.Time).Add":
+		// contract-level model: the result is the wall-clock instant (sec', nsec')
+		// with sec'*1e9+nsec' = sec*1e9+nsec+d and 0 <= nsec' < 1e9 (no saturation:
+		// |d| < 2^62 assumed).
+		t := args[0].(*StructV)
+		d := args[1].(*Term)
+		tw, te := t.F[0].(*Term), t.F[1].(*Term)
+		if tw.IsConst() && te.IsConst() && d.IsConst() {
+			return nil, false
+		}
+		top := ts.Const(64, 1<<63)
+		in.must(ts.Eq(ts.BvAnd(tw, top), ts.Const(64, 0)), "time model: instant with monotonic reading (unsupported)")
+		in.stub("time.Time.Add on symbolic wall-clock instants: defining linear constraint, |d| < 2^62 assumed")
+		lim := ts.Const(64, 1<<62)
+		in.assume(ts.And(ts.Slt(d, lim), ts.Slt(ts.BvNeg(lim), d)), "time.Add range")
+		nsec := in.freshVar("add.nsec", BV(64))
+		sec := in.freshVar("add.sec", BV(64))
+		e9 := ts.Const(64, 1000000000)
+		in.assumeX(ts.Ult(nsec, e9), "time.Add nsec range")
+		in.vrange[nsec.id] = [2]uint64{0, 999999999}
+		nmask := ts.Const(64, (1<<30)-1)
+		tn := ts.BvAnd(tw, nmask)
+		if _, hi := in.ival(tw); hi <= nmask.Val {
+			tn = tw
+		}
+		// (sec'-sec)*1e9 + nsec' == nsec + d ; seconds stay within +-2^33 of the operand
+		ds := ts.Sub(sec, te)
+		l33 := ts.Const(64, 1<<33)
+		in.assumeX(ts.And(ts.Slt(ds, l33), ts.Slt(ts.BvNeg(l33), ds)), "time.Add sec range")
+		in.assumeX(ts.Eq(ts.Add(ts.Mul(ds, e9), nsec), ts.Add(tn, d)), "time.Add definition")
+		res := in.copyVal(t).(*StructV)
+		res.F[0] = nsec
+		res.F[1] = sec
+		return res, true
+	case "(time.Time).Sub":
+		// contract-level model for wall-clock instants (no monotonic reading):
+		// (sec1-sec2)*1e9 + (nsec1-nsec2), valid while the difference fits
+		// (|sec1-sec2| < 2^33, i.e. 272 years) — stated as an assumption.
+		t, u := args[0].(*StructV), args[1].(*StructV)
+		tw, uw := t.F[0].(*Term), u.F[0].(*Term)
+		te, ue := t.F[1].(*Term), u.F[1].(*Term)
+		if tw.IsConst() && uw.IsConst() && te.IsConst() && ue.IsConst() {
+			return nil, false
+		}
+		top := ts.Const(64, 1<<63)
+		in.must(ts.Eq(ts.BvAnd(tw, top), ts.Const(64, 0)), "time model: instant with monotonic reading (unsupported)")
+		in.must(ts.Eq(ts.BvAnd(uw, top), ts.Const(64, 0)), "time model: instant with monotonic reading (unsupported)")
+		in.stub("time.Time.Sub on symbolic wall-clock instants: (sec1-sec2)*1e9+(nsec1-nsec2), |sec1-sec2| < 2^33 assumed")
+		ds := ts.Sub(te, ue)
+		lim := ts.Const(64, 1<<33)
+		in.assume(ts.And(ts.Slt(ds, lim), ts.Slt(ts.BvNeg(lim), ds)), "time.Sub range")
+		nmask := ts.Const(64, (1<<30)-1)
+		tn, un := ts.BvAnd(tw, nmask), ts.BvAnd(uw, nmask)
+		if _, hi := in.ival(tw); hi <= nmask.Val {
+			tn = tw
+		}
+		if _, hi := in.ival(uw); hi <= nmask.Val {
+			un = uw
+		}
+		dn := ts.Sub(tn, un)
+		return ts.Add(ts.Mul(ds, ts.Const(64, 1000000000)), dn), true
 	case "os.Getenv":
 		return StrV{}, true
 	case "crypto/rand.Read":
@@ -768,6 +832,18 @@ func (in *Interp) prelude(fn *ssa.Function, name string, args []Value) (Value, b
 	case "zzNote":
 		in.note(in.cstr(args[0]))
 		return nil, true
+	case "zzIsFloorDiv":
+		// q = floor(v*m/d)  <=>  0 <= q  and  q*d <= v*m < q*d + d   (128-bit arithmetic)
+		q, v, m, d := args[0].(*Term), args[1].(*Term), args[2].(*Term), args[3].(*Term)
+		z := func(t *Term) *Term {
+			return ts.mk(&Term{Op: OZext, Sort: BV(128), Args: []*Term{t}, P0: 64})
+		}
+		vm := ts.mk(&Term{Op: OMul, Sort: BV(128), Args: []*Term{z(v), z(m)}})
+		qd := ts.mk(&Term{Op: OMul, Sort: BV(128), Args: []*Term{z(q), z(d)}})
+		le := ts.mk(&Term{Op: OUle, Sort: BoolSort, Args: []*Term{qd, vm}})
+		diff := ts.mk(&Term{Op: OSub, Sort: BV(128), Args: []*Term{vm, qd}})
+		lt := ts.mk(&Term{Op: OUlt, Sort: BoolSort, Args: []*Term{diff, z(d)}})
+		return ts.AndN(ts.Sle(ts.Const(64, 0), q), le, lt), true
 	}
 	return nil, false
 }
